@@ -22,11 +22,15 @@ POOL = 6
 FUNCS = ['is_none', 'typename', 'rep', 'str2', 'const7', 'ident']
 OPS = ['new_records', 'new_columns', 'new_rows', 'new_empty', 'setitem', 'setitem_from', 'update_from', 'delitem', 'update', 'row', 'col', 'cols_tuple', 'slice',
        'mask', 'take', 'project', 'derive', 'rename', 'do', 'minus', 'copy', 'add', 'iadd', 'add_record', 'add_records', 'add_zero', 'concat', 'sum_rows',
-       'inc', 'exc', 'inc_fn', 'inc_all', 'setitem_reject', 'new_reject', 'update_reject']
+       'inc', 'exc', 'inc_fn', 'inc_all', 'inc_dict', 'setitem_reject', 'new_reject', 'update_reject']
 
 
 class SimCallbackError(Exception):
     pass
+
+
+FILTER_DICTS = {}         # per run: the caller's filter dicts as the caller built them (model side)
+REAL_FILTER_DICTS = {}    # per run: the objects actually handed to inc/exc
 
 
 # ----------------------------------------------------------------------------------------------
@@ -135,8 +139,10 @@ def generate(st):
         'cols': sorted(sw.sample(COLS, sw.randint(2, 6)) + (['data'] if sw.random() < 0.2 else []) + (['columns'] if sw.random() < 0.06 else []) + (['key'] if sw.random() < 0.15 else [])),
         'cells': sorted(sw.sample(range(len(CELLS)), sw.randint(3, len(CELLS)))),
         'faulty': sw.random() < 0.6,
-        'off': sorted(sw.sample(OPS[4:32], sw.randint(0, 8))),
+        'off': sorted(sw.sample(OPS[4:33], sw.randint(0, 8))),
     }
+    FILTER_DICTS.clear()
+    REAL_FILTER_DICTS.clear()
     cells = [CELLS[i] for i in cfg['cells']]
     cols = cfg['cols']
     models = []        # generator-side pool of models (mirrors execute's pool management)
@@ -396,11 +402,11 @@ def _gen_op(o, g, f, cfg, cells, cols, models, rows_n, cell, spec_for):
         fn = g.choice(['is_none', 'typename', 'rep', 'ident', 'str2'])
         other = None
         if fn == 'str2':
-            rest = [c for c in m.cols if c not in cs]
+            rest = [c for c in m.cols if c not in cs] if g.random() < 0.5 else list(m.cols)
             if not rest:
                 fn = 'rep'
             else:
-                other = g.choice(rest)
+                other = g.choice(rest)      # may be a column transformed earlier (or later) in this very call
         fn2 = g.choice(['rep', 'typename']) if (g.random() < 0.2 and fn != 'str2') else None
         if faulty and n and f.random() < 0.2:
             raise_at = f.randint(1, n * len(cs) * (2 if fn2 else 1))
@@ -448,6 +454,19 @@ def _gen_op(o, g, f, cfg, cells, cols, models, rows_n, cell, spec_for):
             if not _isnan(v) and v is not None and extra:
                 return {'op': o, 't': t, 'col': c, 'val': {'list': [enc(v)] + [enc(x) for x in extra]}}
         return {'op': o, 't': t, 'col': c, 'val': {'scalar': enc(v)}}
+    if o == 'inc_dict':
+        if not m.cols:
+            return None
+        c1 = g.choice(m.cols)
+        kw = None
+        rest = [c for c in m.cols if c != c1]
+        if rest and g.random() < 0.6:
+            c2 = g.choice(rest)
+            vals2 = [v for v in m.column(c2) if v is not None and not _isnan(v)]
+            kw = [c2, enc(g.choice(vals2) if vals2 and g.random() < 0.7 else 1)]
+        vals1 = [v for v in m.column(c1) if v is not None and not _isnan(v)]
+        # filter dict number k of the caller: created on first use, then reused as is
+        return {'op': o, 't': t, 'k': g.randrange(2), 'col': c1, 'val': enc(g.choice(vals1) if vals1 and g.random() < 0.7 else 'x'), 'kw': kw, 'exc': g.random() < 0.4}
     if o == 'inc_all':
         return {'op': o, 't': t, 'exc': g.random() < 0.5}
     if o == 'inc_fn':
@@ -725,7 +744,7 @@ def model_apply(op, models):
             return ('skip',)
         other = op.get('other')
         ar = PURE[op['fn']][0]
-        if ar == 2 and (other is None or other not in m.cols or other in cs):
+        if ar == 2 and (other is None or other not in m.cols):
             return ('skip',)
         if ar == 0:
             return ('skip',)
@@ -791,6 +810,19 @@ def model_apply(op, models):
         hit = [_filter_match(r[op['col']], val) for r in m.rows]
         rows = [r for r, h in zip(m.rows, hit) if (h if o == 'inc' else not h)]
         return ('table', M(m.cols, rows))
+    if o == 'inc_dict':
+        # the effective filter is the caller's dict k AS THE CALLER BUILT IT (first use fixes its content) plus the keyword
+        flt = FILTER_DICTS.setdefault(op['k'], {op['col']: dec(op['val'])})
+        eff = dict(flt)
+        if op.get('kw'):
+            if op['kw'][0] in flt:
+                return ('skip',)       # the same column in the dict and as a keyword: which one wins is not stated
+            eff[op['kw'][0]] = dec(op['kw'][1])
+        if any(c not in m.cols for c in eff):
+            return ('skip',)
+        hit = [all(_filter_match(r[c], v) for c, v in eff.items()) for r in m.rows]
+        rows = [r for r, h in zip(m.rows, hit) if (not h if op.get('exc') else h)]
+        return ('table', M(m.cols, rows))
     if o == 'inc_all':
         return ('table', m.copy())       # no condition: every row, as a new table
     if o == 'inc_fn':
@@ -839,6 +871,8 @@ def _pool_update(pool, op, out, real):
 def execute(trace, ctx=None):
     from pyg_base import dictable
     res = Result()
+    FILTER_DICTS.clear()
+    REAL_FILTER_DICTS.clear()
     pool = []        # list of [model, real]
     state = {'step': 0}
 
@@ -876,6 +910,9 @@ def execute(trace, ctx=None):
                     raise Violation('row-col-disagree', '%s: d[%d][%r] != d[%r][%d]' % (who, i, c, c, i), k)
 
     def check_all(k):
+        for kk, fd in REAL_FILTER_DICTS.items():
+            if not _value_same(fd, FILTER_DICTS[kk]):
+                raise Violation('argument-altered', 'the filter dict handed to inc/exc was %r and is now %r after step %d (%s)' % (FILTER_DICTS[kk], fd, k, _opname(trace, k)), k)
         for j, (m, d) in enumerate(pool):
             check_table(m, d, k, 'table#%d' % j)
             res.state_keys.add('%s|%d|%s' % (','.join(sorted(m.cols)), min(m.n(), 7), _types(m)))
@@ -1178,6 +1215,10 @@ def real_apply(op, reals, dictable):
     if o in ('inc', 'exc'):
         v = _as_values(op['val'])[0]
         return getattr(d, o)(**{op['col']: v})
+    if o == 'inc_dict':
+        flt = REAL_FILTER_DICTS.setdefault(op['k'], dict(FILTER_DICTS[op['k']]))
+        kw = {op['kw'][0]: dec(op['kw'][1])} if op.get('kw') else {}
+        return d.exc(flt, **kw) if op.get('exc') else d.inc(flt, **kw)
     if o == 'inc_all':
         return d.exc() if op.get('exc') else d.inc()
     if o == 'inc_fn':
@@ -1191,7 +1232,7 @@ def real_apply(op, reals, dictable):
 
 
 # ----------------------------------------------------------------------------------------------
-TABLE_MAKERS = {'add_records', 'new_records', 'new_columns', 'new_rows', 'slice', 'mask', 'take', 'project', 'derive', 'rename', 'do', 'minus', 'copy',
+TABLE_MAKERS = {'inc_dict', 'add_records', 'new_records', 'new_columns', 'new_rows', 'slice', 'mask', 'take', 'project', 'derive', 'rename', 'do', 'minus', 'copy',
                 'add', 'add_record', 'add_zero', 'concat', 'sum_rows', 'inc', 'exc', 'inc_fn', 'inc_all'}
 
 
